@@ -31,12 +31,36 @@ theorem C02_origin_initial_true (pre : List Node) (n : Node) (post : List Node) 
     resolve resolveTable n s.2 p = (match c₀.get p.name with | some v => .ok v | none => .error (.unresolved p.name)) :=
   origin_initial_true_of_accepted resolveTable SemantivaModel.Tie.C01.precedence_ok pre n post d₀ c₀ s hs req hacc hwf hrun p hp ho
 
-/-- Reported origin "default" is true when the caller's context does not hold the name (the proviso the finding is about). -/
-theorem C02_origin_default_true_partial (pre : List Node) (n : Node) (d₀ : Data) (c₀ : Ctx) (s : Data × Ctx) (hs : List Ctx)
+/-- Reported origin "default" (after the second pass) is true when the caller supplies exactly the required keys. -/
+theorem C02_origin2_default_true (pre : List Node) (n : Node) (d₀ : Data) (c₀ : Ctx) (s : Data × Ctx) (hs : List Ctx)
+    (req : List String) (hexact : ∀ k, c₀.has k = req.contains k)
     (hwf : ∀ m ∈ pre, nodeWF m = true ∧ construct m = none)
     (hrun : execHist resolveTable pre (d₀, c₀) = .ok (s, hs)) (p : PSig)
-    (ho : originOf n (foldO pre 0 OState.init).om p = .default) (hc₀ : c₀.has p.name = false) :
+    (ho : originOf2 n (foldO pre 0 OState.init) req p = .default) :
     ∃ dv, p.dflt = some dv ∧ resolve resolveTable n s.2 p = .ok dv :=
-  origin_default_true_partial resolveTable SemantivaModel.Tie.C01.precedence_ok pre n d₀ c₀ s hs hwf hrun p ho hc₀
+  origin2_default_true resolveTable SemantivaModel.Tie.C01.precedence_ok pre n d₀ c₀ s hs req hexact hwf hrun p ho
+
+/-- Reported origin "initial context" (first pass or reclassified by the second) is true. -/
+theorem C02_origin2_initial_true (pre : List Node) (n : Node) (d₀ : Data) (c₀ : Ctx) (s : Data × Ctx) (hs : List Ctx)
+    (req : List String) (hwf : ∀ m ∈ pre, nodeWF m = true ∧ construct m = none)
+    (hrun : execHist resolveTable pre (d₀, c₀) = .ok (s, hs)) (p : PSig)
+    (ho : originOf2 n (foldO pre 0 OState.init) req p = .initial)
+    (hg : (foldO pre 0 OState.init).gone.contains p.name = false) (hc : c₀.has p.name = true) :
+    ∃ v, c₀.get p.name = some v ∧ resolve resolveTable n s.2 p = .ok v :=
+  origin2_initial_true resolveTable SemantivaModel.Tie.C01.precedence_ok pre n d₀ c₀ s hs req hwf hrun p ho hg hc
+
+/-- The capstone, for the resolution order read off the code on this run. -/
+theorem C02_origin_report_true (pre : List Node) (n : Node) (post : List Node) (d₀ : Data) (c₀ : Ctx) (s : Data × Ctx)
+    (hs : List Ctx) (req : List String) (hacc : analyse (pre ++ n :: post) d₀.ty = .ok req)
+    (hexact : ∀ k, c₀.has k = req.contains k)
+    (hwf : ∀ m ∈ pre, nodeWF m = true ∧ construct m = none)
+    (hrun : execHist resolveTable pre (d₀, c₀) = .ok (s, hs)) (p : PSig) (hp : p ∈ n.params) :
+    match originOf2 n (foldO pre 0 OState.init) req p with
+    | .config => ∃ v, n.config.lookup p.name = some v ∧ resolve resolveTable n s.2 p = .ok v
+    | .node j => j < pre.length ∧ ∃ dj cj v, execFrom resolveTable (pre.take (j + 1)) 0 (d₀, c₀) = .ok (dj, cj) ∧
+        cj.get p.name = some v ∧ resolve resolveTable n s.2 p = .ok v
+    | .initial => ∃ v, c₀.get p.name = some v ∧ resolve resolveTable n s.2 p = .ok v
+    | .default => ∃ dv, p.dflt = some dv ∧ resolve resolveTable n s.2 p = .ok dv :=
+  origin_report_true resolveTable SemantivaModel.Tie.C01.precedence_ok pre n post d₀ c₀ s hs req hacc hexact hwf hrun p hp
 
 end SemantivaModel.Tie.C02
